@@ -304,7 +304,8 @@ func (r *transport) handleCacheHit(
 	respNoCacheFieldsSeq, isRespNoCacheQualified := respNoCacheFieldsRaw.Value()
 
 	// RFC 8246: If response is fresh and immutable, always serve from cache unless request has no-cache
-	if !freshness.IsStale && ccResp.Immutable() && !ccReq.NoCache() {
+	if !freshness.IsStale && ccResp.Immutable() && !ccReq.NoCache() &&
+		!(hasRespNoCache && !isRespNoCacheQualified) {
 		return r.serveFromCache(
 			req,
 			urlKey,
